@@ -20,8 +20,12 @@ func checkRotg(c rotgCase) *vk.Failure {
 	var impl bg.Implementation
 	a, b := float64(c.A), float64(c.B)
 	u := vk.Eps
+	// tiny is the spacing of the subnormal numbers: a result r in that range
+	// carries an absolute error of tiny/2 instead of a relative one of u.
+	tiny := math.SmallestNonzeroFloat64
 	var cs, sn, r, z float64
 	if c.Single {
+		tiny = math.SmallestNonzeroFloat32
 		a, b = float64(float32(a)), float64(float32(b))
 		c1, s1, r1, z1 := impl.Srotg(float32(a), float32(b))
 		cs, sn, r, z = float64(c1), float64(s1), float64(r1), float64(z1)
@@ -39,14 +43,18 @@ func checkRotg(c rotgCase) *vk.Failure {
 			return vk.Failf("rotg-nonfinite", "rotg(%g,%g) = c %g s %g r %g z %g", a, b, cs, sn, r, z)
 		}
 	}
-	if math.Abs(cs*cs+sn*sn-1) > 16*u {
+	ue := u
+	if r != 0 {
+		ue += tiny / math.Abs(r)
+	}
+	if math.Abs(cs*cs+sn*sn-1) > 16*ue {
 		return vk.Failf("rotg-unit", "rotg(%g,%g): c^2+s^2-1 = %g", a, b, cs*cs+sn*sn-1)
 	}
 	scale := math.Abs(a) + math.Abs(b)
-	if math.Abs(cs*a+sn*b-r) > 16*u*scale {
+	if math.Abs(cs*a+sn*b-r) > 16*(ue*scale+tiny) {
 		return vk.Failf("rotg-r", "rotg(%g,%g): c*a+s*b = %g, r = %g", a, b, cs*a+sn*b, r)
 	}
-	if math.Abs(-sn*a+cs*b) > 16*u*scale {
+	if math.Abs(-sn*a+cs*b) > 16*(ue*scale+tiny) {
 		return vk.Failf("rotg-zero", "rotg(%g,%g): -s*a+c*b = %g", a, b, -sn*a+cs*b)
 	}
 	// documented sign convention: sigma = sgn(a) if |a| > |b| else sgn(b)
